@@ -256,4 +256,7 @@ def check(model, tier):
                     run.fail("R19.2", inst, "make_leaf does not forward name= / name_prefix= to LeafRelation", fi=f, node=call)
     run.assume("uuid.uuid4 values are pairwise distinct and uuid4 is safe to call from several threads")
     run.assume("names supplied explicitly by the caller (name=...) are the caller's responsibility")
+    from ..rules.foundation import run_foundation
+
+    run_foundation(ctx, "19", only=("F01", "F06", "F09", "F12"))
     return run
